@@ -140,7 +140,7 @@ impl Property for C02 {
     fn runs(&self, tier: Tier) -> usize {
         match tier {
             Tier::Quick => 40_000,
-            Tier::Thorough => 1_500_000,
+            Tier::Thorough => 6_000_000,
         }
     }
 
